@@ -469,3 +469,264 @@ class LocksStep(Job):
 
 JOBS.setdefault("C13", [])
 JOBS["C13"] += [LocksStep("lock"), LocksStep("unlock")]
+
+
+# =====================================================================================================
+# C14: merge_database_updates (the overlay's commit) -- nested dictionaries as slot arrays, the incoming
+# DatabaseUpdates as IndexMap entry lists
+# =====================================================================================================
+TN, TP, TL = 2, 2, 3          # `this`: node slots, partition slots per node, leaf slots per partition
+OL = 2                        # `other`: one node, one partition (Delta or Reset, symbolic), OL leaf entries
+
+
+def _sortkey(t):
+    return StructV("DbSortKey", [IntV(t, "u8")])
+
+
+def _dbupdate(kind, val):
+    return EnumV("DatabaseUpdate", kind, {0: [IntV(val, "u8")], 1: []})
+
+
+class MergeUpdates(Job):
+    crate = "radix-substate-store-impls"
+    query_timeout_s = 120
+    max_unroll = 60
+
+    def __init__(self):
+        self.name = "c14m::merge_database_updates"
+        self.what = ("merge_database_updates (the overlay's commit): from an ARBITRARY staged state (<= %d nodes x <= %d "
+                     "partitions, each Delta or Reset with <= %d entries, all keys/values symbolic) and an arbitrary "
+                     "incoming commit (one partition, Delta or Reset, %d entries), the merged staging answers every "
+                     "(node, partition, sort key) exactly like the incoming commit applied on top of the staged "
+                     "state: the commit's Set / Delete / partition Reset wins, otherwise the staged verdict stays" % (
+                         TN, TP, TL - 1, OL))
+        self.cover_labels = ["delta over delta", "delta over reset", "reset over anything", "new partition", "new node",
+                             "delete hides a staged value"]
+
+    def locate(self, prog):
+        return find_function(prog, None, "merge_database_updates", nparams=2)
+
+    # ---- variables
+    def _names(self):
+        ns = []
+        for a in range(TN):
+            ns += ["n%d_p" % a, "n%d_k" % a]
+            for b in range(TP):
+                ns += ["n%dp%d_p" % (a, b), "n%dp%d_k" % (a, b), "n%dp%d_r" % (a, b)]
+                for c in range(TL):
+                    ns += ["n%dp%dl%d_%s" % (a, b, c, f) for f in ("p", "k", "d", "v")]
+        ns += ["on", "op", "o_reset"]
+        for e in range(OL):
+            ns += ["o%d_k" % e, "o%d_d" % e, "o%d_v" % e]
+        ns += ["qn", "qp", "qs"]
+        return ns
+
+    def inputs(self):
+        d = {k: z3.Int(k) for k in self._names()}
+        pre = []
+        for k, v in d.items():
+            if k.endswith("_p") or k.endswith("_r") or k.endswith("_d") or k == "o_reset":
+                pre += [v >= 0, v <= 1]
+            else:
+                pre += [v >= 0, v <= 100]
+        # distinct keys among present slots; room for the insertions the step may need
+        for a in range(TN):
+            for a2 in range(a + 1, TN):
+                pre.append(z3.Implies(z3.And(d["n%d_p" % a] == 1, d["n%d_p" % a2] == 1), d["n%d_k" % a] != d["n%d_k" % a2]))
+            for b in range(TP):
+                for b2 in range(b + 1, TP):
+                    pre.append(z3.Implies(z3.And(d["n%dp%d_p" % (a, b)] == 1, d["n%dp%d_p" % (a, b2)] == 1),
+                                          d["n%dp%d_k" % (a, b)] != d["n%dp%d_k" % (a, b2)]))
+                for c in range(TL):
+                    for c2 in range(c + 1, TL):
+                        pre.append(z3.Implies(z3.And(d["n%dp%dl%d_p" % (a, b, c)] == 1, d["n%dp%dl%d_p" % (a, b, c2)] == 1),
+                                              d["n%dp%dl%d_k" % (a, b, c)] != d["n%dp%dl%d_k" % (a, b, c2)]))
+                pre.append(z3.Sum([d["n%dp%dl%d_p" % (a, b, c)] for c in range(TL)]) <= TL - OL)
+            pre.append(z3.Sum([d["n%dp%d_p" % (a, b)] for b in range(TP)]) < TP)
+        pre.append(z3.Sum([d["n%d_p" % a] for a in range(TN)]) < TN)
+        for e in range(OL):
+            for e2 in range(e + 1, OL):
+                pre.append(d["o%d_k" % e] != d["o%d_k" % e2])
+        return d, pre
+
+    # ---- values
+    def _this_v(self, d):
+        nodes = []
+        for a in range(TN):
+            parts = []
+            for b in range(TP):
+                delta, reset = [], []
+                for c in range(TL):
+                    pres = BoolV(d["n%dp%dl%d_p" % (a, b, c)] == 1)
+                    k = _sortkey(d["n%dp%dl%d_k" % (a, b, c)])
+                    delta.append(StructV("Slot", [k, _dbupdate(d["n%dp%dl%d_d" % (a, b, c)], d["n%dp%dl%d_v" % (a, b, c)]), pres]))
+                    reset.append(StructV("Slot", [k, IntV(d["n%dp%dl%d_v" % (a, b, c)], "u8"), pres]))
+                pv = EnumV("StagingPartitionDatabaseUpdates", d["n%dp%d_r" % (a, b)],
+                           {0: [StructV("SymMap<DbSortKey, DatabaseUpdate>", delta)],
+                            1: [StructV("SymMap<DbSortKey, Vec<u8>>", reset)]})
+                parts.append(StructV("Slot", [IntV(d["n%dp%d_k" % (a, b)], "u8"), pv, BoolV(d["n%dp%d_p" % (a, b)] == 1)]))
+            nv = StructV("StagingNodeDatabaseUpdates", [StructV("SymMap<u8, StagingPartitionDatabaseUpdates>", parts)])
+            nodes.append(StructV("Slot", [IntV(d["n%d_k" % a], "u8"), nv, BoolV(d["n%d_p" % a] == 1)]))
+        return StructV("StagingDatabaseUpdates", [StructV("SymMap<Vec<u8>, StagingNodeDatabaseUpdates>", nodes)])
+
+    def _other_v(self, d):
+        delta = [StructV("(DbSortKey, DatabaseUpdate)", [_sortkey(d["o%d_k" % e]), _dbupdate(d["o%d_d" % e], d["o%d_v" % e])])
+                 for e in range(OL)]
+        reset = [StructV("(DbSortKey, Vec<u8>)", [_sortkey(d["o%d_k" % e]), IntV(d["o%d_v" % e], "u8")]) for e in range(OL)]
+        pv = EnumV("PartitionDatabaseUpdates", d["o_reset"], {0: [StructV("IndexMap<DbSortKey, DatabaseUpdate>", delta)],
+                                                         1: [StructV("IndexMap<DbSortKey, Vec<u8>>", reset)]})
+        parts = StructV("IndexMap<u8, PartitionDatabaseUpdates>", [StructV("(u8, PartitionDatabaseUpdates)", [IntV(d["op"], "u8"), pv])])
+        node = StructV("NodeDatabaseUpdates", [parts])
+        return StructV("DatabaseUpdates", [StructV("IndexMap<Vec<u8>, NodeDatabaseUpdates>",
+                                                    [StructV("(Vec<u8>, NodeDatabaseUpdates)", [IntV(d["on"], "u8"), node])])])
+
+    def setup_path(self, path, inp):
+        self._d = {k: lit(v) for k, v in inp.items()}
+        path.frames["job"] = {"self": self._this_v(self._d)}
+
+    def args(self, inp):
+        d = {k: lit(v) for k, v in inp.items()}
+        return [RefV("&mut StagingDatabaseUpdates", "job", "self", ()), self._other_v(d)]
+
+    # ---- verdicts: (kind, value) with kind 0 = no statement (falls through to the database), 1 = Set(value), 2 = gone
+    @staticmethod
+    def _ite_pair(c, a, b):
+        return (z3.If(c, a[0], b[0]), z3.If(c, a[1], b[1]))
+
+    def _verdict_staging(self, v, qn, qp, qs):
+        res = (z3.IntVal(0), z3.IntVal(0))
+        for ns in v.fields[0].fields:
+            node_hit = z3.And(ns.fields[2].term, ns.fields[0].term == qn)
+            nres = (z3.IntVal(0), z3.IntVal(0))
+            for ps in ns.fields[1].fields[0].fields:
+                part_hit = z3.And(ps.fields[2].term, ps.fields[0].term == qp)
+                pv = ps.fields[1]
+                # Delta
+                dres = (z3.IntVal(0), z3.IntVal(0))
+                for ls in (pv.variants[0][0].fields if pv.variants.get(0) else []):
+                    hit = z3.And(ls.fields[2].term, ls.fields[0].fields[0].term == qs)
+                    upd = ls.fields[1]
+                    val = upd.variants[0][0].term if upd.variants.get(0) and upd.variants[0] and upd.variants[0][0].kind == "int" else z3.IntVal(0)
+                    dres = self._ite_pair(hit, (z3.If(upd.discr == 0, 1, 2), z3.If(upd.discr == 0, val, 0)), dres)
+                rres = (z3.IntVal(2), z3.IntVal(0))
+                for ls in (pv.variants[1][0].fields if pv.variants.get(1) else []):
+                    hit = z3.And(ls.fields[2].term, ls.fields[0].fields[0].term == qs)
+                    rres = self._ite_pair(hit, (z3.IntVal(1), ls.fields[1].term), rres)
+                nres = self._ite_pair(part_hit, self._ite_pair(pv.discr == 0, dres, rres), nres)
+            res = self._ite_pair(node_hit, nres, res)
+        return res
+
+    def _verdict_other(self, d, qn, qp, qs):
+        hit_part = z3.And(d["on"] == qn, d["op"] == qp)
+        dres = (z3.IntVal(0), z3.IntVal(0))
+        rres = (z3.IntVal(2), z3.IntVal(0))
+        for e in range(OL):
+            hit = d["o%d_k" % e] == qs
+            dres = self._ite_pair(hit, (z3.If(d["o%d_d" % e] == 0, 1, 2), z3.If(d["o%d_d" % e] == 0, d["o%d_v" % e], 0)), dres)
+            rres = self._ite_pair(hit, (z3.IntVal(1), d["o%d_v" % e]), rres)
+        return self._ite_pair(hit_part, self._ite_pair(d["o_reset"] == 0, dres, rres), (z3.IntVal(0), z3.IntVal(0)))
+
+    def _expected(self, d):
+        vo = self._verdict_other(d, d["qn"], d["qp"], d["qs"])
+        vt = self._verdict_staging(self._this_v(d), d["qn"], d["qp"], d["qs"])
+        return self._ite_pair(vo[0] != 0, vo, vt)
+
+    def extract_outcome(self, o):
+        d = self._d
+        k, v = self._verdict_staging(o.path.frames["job"]["self"], d["qn"], d["qp"], d["qs"])
+        return {"vk": k, "vv": v}
+
+    def native(self, nat, vals):
+        toks = ["ROOT", vals["qn"], vals["qp"], vals["qs"], 200, "COMMIT"]
+        for a in range(TN):
+            if int(vals["n%d_p" % a]) != 1:
+                continue
+            for b in range(TP):
+                if int(vals["n%dp%d_p" % (a, b)]) != 1:
+                    continue
+                ents = [c for c in range(TL) if int(vals["n%dp%dl%d_p" % (a, b, c)]) == 1]
+                if int(vals["n%dp%d_r" % (a, b)]) == 0:
+                    toks += ["D", vals["n%d_k" % a], vals["n%dp%d_k" % (a, b)], len(ents)]
+                    for c in ents:
+                        if int(vals["n%dp%dl%d_d" % (a, b, c)]) == 0:
+                            toks += [vals["n%dp%dl%d_k" % (a, b, c)], "S", vals["n%dp%dl%d_v" % (a, b, c)]]
+                        else:
+                            toks += [vals["n%dp%dl%d_k" % (a, b, c)], "X"]
+                else:
+                    toks += ["R", vals["n%d_k" % a], vals["n%dp%d_k" % (a, b)], len(ents)]
+                    for c in ents:
+                        toks += [vals["n%dp%dl%d_k" % (a, b, c)], vals["n%dp%dl%d_v" % (a, b, c)]]
+        toks += ["END", "COMMIT"]
+        if int(vals["o_reset"]) == 0:
+            toks += ["D", vals["on"], vals["op"], OL]
+            for e in range(OL):
+                toks += [vals["o%d_k" % e]] + (["S", vals["o%d_v" % e]] if int(vals["o%d_d" % e]) == 0 else ["X"])
+        else:
+            toks += ["R", vals["on"], vals["op"], OL]
+            for e in range(OL):
+                toks += [vals["o%d_k" % e], vals["o%d_v" % e]]
+        toks += ["END", "GET", vals["qn"], vals["qp"], vals["qs"]]
+        t = nat.call("overlay_run", *toks).split()
+        if t[0] == "panic":
+            return {"panic": True, "msg": " ".join(t[1:])}
+        got = t[-1]
+        if got == "none":
+            return {"panic": False, "vk": 2, "vv": 0}
+        if got == "200":
+            return {"panic": False, "vk": 0, "vv": 0}
+        return {"panic": False, "vk": 1, "vv": int(got)}
+
+    def post(self, inp, res):
+        d = {k: lit(v) for k, v in inp.items()}
+        ek, ev = self._expected(d)
+        return [("the merged staging answers the query like the incoming commit applied on top of the staged state",
+                 z3.And(lit(res["vk"]) == ek, z3.Implies(ek == 1, lit(res["vv"]) == ev)))]
+
+    def covers(self, inp, res):
+        d = {k: lit(v) for k, v in inp.items()}
+        hit = []
+        for a in range(TN):
+            for b in range(TP):
+                hit.append((z3.And(d["n%d_p" % a] == 1, d["n%d_k" % a] == d["on"], d["n%dp%d_p" % (a, b)] == 1,
+                                   d["n%dp%d_k" % (a, b)] == d["op"]), d["n%dp%d_r" % (a, b)]))
+        same_part = z3.Or([h for h, _ in hit])
+        staged_reset = z3.Or([z3.And(h, r == 1) for h, r in hit])
+        node_known = z3.Or([z3.And(d["n%d_p" % a] == 1, d["n%d_k" % a] == d["on"]) for a in range(TN)])
+        vt = self._verdict_staging(self._this_v(d), d["qn"], d["qp"], d["qs"])
+        return [("delta over delta", z3.And(same_part, z3.Not(staged_reset), d["o_reset"] == 0)),
+                ("delta over reset", z3.And(staged_reset, d["o_reset"] == 0)),
+                ("reset over anything", z3.And(same_part, d["o_reset"] == 1)),
+                ("new partition", z3.And(node_known, z3.Not(same_part))), ("new node", z3.Not(node_known)),
+                ("delete hides a staged value", z3.And(vt[0] == 1, lit(res["vk"]) == 2))]
+
+    def vectors(self, rng):
+        out = []
+        names = self._names()
+        for _ in range(40):
+            d = {k: 0 for k in names}
+            keys = [1, 2, 3]
+            for a in range(TN - 1):
+                d["n%d_p" % a] = rng.randrange(2)
+                d["n%d_k" % a] = rng.choice([7, 8])
+                for b in range(TP - 1):
+                    d["n%dp%d_p" % (a, b)] = rng.randrange(2)
+                    d["n%dp%d_k" % (a, b)] = rng.choice([0, 1])
+                    d["n%dp%d_r" % (a, b)] = rng.randrange(2)
+                    ks = rng.sample(keys, TL - OL)
+                    for c in range(TL - OL):
+                        d["n%dp%dl%d_p" % (a, b, c)] = rng.randrange(2)
+                        d["n%dp%dl%d_k" % (a, b, c)] = ks[c]
+                        d["n%dp%dl%d_d" % (a, b, c)] = rng.randrange(2)
+                        d["n%dp%dl%d_v" % (a, b, c)] = rng.randrange(1, 90)
+            d["on"], d["op"], d["o_reset"] = rng.choice([7, 8]), rng.choice([0, 1]), rng.randrange(2)
+            ks = rng.sample(keys, OL)
+            for e in range(OL):
+                d["o%d_k" % e], d["o%d_d" % e], d["o%d_v" % e] = ks[e], rng.randrange(2), rng.randrange(1, 90)
+            d["qn"], d["qp"], d["qs"] = rng.choice([7, 8]), rng.choice([0, 1]), rng.choice(keys)
+            # distinct keys within unused slots as well (the precondition only constrains present ones)
+            out.append(d)
+        return out
+
+
+JOBS.setdefault("C14", [])
+JOBS["C14"] += [MergeUpdates()]
